@@ -7,8 +7,9 @@ H(name, props, tier, timeout_s, optional, bound)
 
 
 class H:
-    def __init__(self, name, props, tier="quick", timeout=150, optional=False, bound="", unwind=None):
+    def __init__(self, name, props, tier="quick", timeout=150, optional=False, bound="", tprops=None):
         self.name, self.props, self.tier, self.timeout, self.optional, self.bound = name, props, tier, timeout, optional, bound
+        self.tprops = tprops or []  # properties that include this harness in the thorough tier only
 
 
 GROUPS = {
@@ -75,10 +76,92 @@ GROUPS = {
 }
 
 
+VM_STUBS = ["alloc::fmt::format -> empty String", "VM::next -> first call: installs bp, consumes the opcode byte, returns the contract's opcode; second call: Halt (single step)",
+            "GC::{trace,maybe_trace,untrace,destroy} -> no-op, GC::run -> recorder of the root slices (collection itself: gc.rs harnesses)"]
+CW = "stack window: 1-4 arbitrary immediates (null/bool/61-bit int/function descriptor), symbolic operands; "
+
+GROUPS["vm"] = {
+    "src": "src/vm.rs",
+    "extra": {"src/object.rs": ["object_proofs.rs"]},
+    "harness_file": "vm_proofs.rs",
+    "module": "vm::__verif_k",
+    "functions": ["vm.rs: VM::run / run_with_gc dispatch loop (one arm per harness), VM::{next,read_u8,read_u16,pop,push,get_local,set_local,jump,pushframe,popframe}, "
+                  "index_get, index_set, index_get_array, index_set_array, index_get_string, index_set_string"],
+    "stubs": VM_STUBS,
+    "harnesses": [
+        H("k_next_real", ["C02"], bound="any opcode byte the compiler can emit (0..=Halt), real get_unchecked + transmute; read_u8/read_u16", tprops=["C01", "C05"]),
+        H("k_push_null", ["C02", "C11"], bound=CW + "Null", tprops=["C01", "C05"]),
+        H("k_push_true", ["C02", "C11"], bound=CW + "True", tprops=["C01", "C05"]),
+        H("k_push_false", ["C02", "C11"], bound=CW + "False", tprops=["C01", "C05"]),
+        H("k_pop_sets_result", ["C02", "C11"], bound=CW + "Pop", tprops=["C01", "C05"]),
+        H("k_halt_and_prologue", ["C02", "C11", "C17"], bound=CW + "run() from an arbitrary retained ip/bp/frame 0/globals", tprops=["C01", "C05"]),
+        H("k_const", ["C02", "C12", "C10"], bound=CW + "1-3 constants, any index in range", tprops=["C01", "C05"]),
+        H("k_const_string_is_copied", ["C02", "C10", "C13"], bound="string constant 'ab'", tprops=["C01"]),
+        H("k_set_global_existing", ["C02", "C09", "C17"], bound=CW + "2 globals, index < 2", tprops=["C01", "C05", "C10"]),
+        H("k_set_global_grows", ["C02", "C09", "C17"], bound=CW + "1 global, index 3", tprops=["C01", "C05"]),
+        H("k_get_global", ["C02", "C05", "C09", "C17"], bound=CW + "0-2 globals, ANY 16-bit index", tprops=["C01", "C10"]),
+        H("k_get_local", ["C02", "C09", "C12"], bound=CW + "4 slots, any bp+idx < 4", tprops=["C01", "C05", "C10"]),
+        H("k_set_local", ["C02", "C09", "C12"], bound=CW + "4 slots, any bp+idx < 3", tprops=["C01", "C05", "C10"]),
+        H("k_jump", ["C02", "C11"], bound=CW + "any 16-bit target", tprops=["C01", "C05"]),
+        H("k_jump_if_false", ["C02", "C05", "C11"], bound=CW + "any condition value, any 16-bit target", tprops=["C01"]),
+        H("k_not", ["C02", "C05"], bound=CW + "any operand", tprops=["C01", "C06"]),
+        H("k_negate", ["C02", "C05"], bound=CW + "any immediate operand incl. MIN_INT", tprops=["C01", "C06"]),
+        H("k_negate_float", ["C02"], bound="any f64 bit pattern", tprops=["C01", "C06"]),
+        H("k_call", ["C02", "C05", "C12"], bound=CW + "0-2 arguments, callee any immediate, num_locals <= arity+3", tprops=["C01"]),
+        H("k_return_value", ["C02", "C12", "C03"], bound=CW + "2-3 frames, any callee base <= 3; records the root slices given to the collector", tprops=["C01", "C05", "C04"]),
+        H("k_return", ["C02", "C12", "C03"], bound=CW + "2-3 frames, any callee base <= 4; records the root slices given to the collector", tprops=["C01", "C05", "C04"]),
+        H("k_array_0", ["C02", "C13"], bound=CW + "Array 0", tprops=["C01", "C05"]),
+        H("k_array_2", ["C02", "C13"], bound=CW + "Array 2", tprops=["C01", "C05"]),
+        H("k_array_3", ["C02", "C13"], bound=CW + "Array 3", tprops=["C01", "C05"]),
+        H("k_call_builtin_0", ["C02", "C14"], bound=CW + "0 arguments, any builtin number 0..=6 (builtins::call stubbed: recorder)", tprops=["C01", "C05"]),
+        H("k_call_builtin_1", ["C02", "C14"], bound=CW + "1 argument", tprops=["C01", "C05"]),
+        H("k_call_builtin_3", ["C02", "C14"], bound=CW + "3 arguments", tprops=["C01", "C05"]),
+        H("k_index_get_plumbing", ["C02", "C13"], bound=CW + "index_get stubbed: recorder", tprops=["C01", "C05"]),
+        H("k_index_set_plumbing", ["C02", "C13"], bound=CW + "index_set stubbed: recorder", tprops=["C01", "C05"]),
+    ]
+    + [H("k_binop_" + n, ["C02"], bound=CW + ("kernel stubbed: recorder (operand order, plumbing)" if n in ("mul", "div", "rem") else "real kernel as oracle"),
+         tprops=["C01", "C05", "C06"]) for n in ("add", "sub", "mul", "div", "rem", "lt", "lte", "gt", "gte", "eq", "neq", "and", "or")]
+    + [H("k_fused_" + n, ["C02", "C10"], bound=CW + "variable slot bp+idx < 3, 2 constants" + ("; kernel stubbed: recorder" if n in ("mul", "div", "rem") else ""),
+         tprops=["C01", "C05", "C06"]) for n in ("add", "sub", "mul", "div", "rem", "lt", "lte", "gt", "gte", "eq", "neq")]
+    + [H(n, ["C13"], "thorough" if "string" in n else "quick", 600 if "string" in n else 150, "string" in n, bound=b, tprops=["C01", "C05"]) for n, b in [
+        ("c13_array_get_0", "empty list, ANY isize index"), ("c13_array_set_0", "empty list, ANY isize index"),
+        ("c13_array_get_1", "1-element list, ANY isize index"), ("c13_array_set_1", "1-element list, ANY isize index"),
+        ("c13_array_get_3", "3-element list, ANY isize index"), ("c13_array_set_3", "3-element list, ANY isize index"),
+        ("c13_string_get_empty", "'' , ANY isize index"), ("c13_string_set_empty", "'', ANY isize index, text / non-text value"),
+        ("c13_string_get_ab", "'ab', ANY isize index"), ("c13_string_set_ab", "'ab', ANY isize index, text / non-text value"),
+        ("c13_string_get_mixed", "'aé€' (1-,2-,3-byte code points), ANY isize index"), ("c13_string_set_mixed", "'aé€', ANY isize index, text / non-text value"),
+        ("c13_string_get_flag", "'🇳x' (4-byte code point), ANY isize index"), ("c13_string_set_flag", "'🇳x', ANY isize index, text / non-text value"),
+    ]]
+    + [H("c13_index_type_errors", ["C13"], "thorough", 600, True, bound="every (container, index) type pair except (sequence, int), get and set", tprops=["C01"])],
+}
+
+GROUPS["builtins"] = {
+    "src": "src/builtins.rs",
+    "extra": {"src/object.rs": ["object_proofs.rs"]},
+    "harness_file": "builtins_proofs.rs",
+    "module": "builtins::__verif_k",
+    "functions": ["builtins.rs: call, call_type, call_string, call_bool, call_int, call_float, call_length"],
+    "stubs": ["alloc::fmt::format -> empty String", "GC::trace -> no-op"],
+    "harnesses": [
+        H("c14_arity_0", ["C14", "C05"], bound="6 builtins x 0 arguments"),
+        H("c14_arity_2", ["C14"], "thorough", 900, True, bound="6 builtins x 2 arbitrary immediates"),
+        H("c14_arity_3", ["C14"], "thorough", 900, True, bound="6 builtins x 3 arbitrary immediates"),
+        H("c14_bool", ["C14"], bound="any value of the 7 types (61-bit ints, all f64 bit patterns, literal-table text, lists <= 2)"),
+        H("c14_int_float_of_immediates", ["C14"], "thorough", 900, True, bound="null, both booleans, all 2^61 ints, all function descriptors"),
+        H("c14_int_of_float", ["C14"], "thorough", 900, True, bound="all 2^64 float bit patterns"),
+        H("c14_type_names", ["C14"], timeout=300, bound="any value of the 7 types"),
+        H("c14_lengte", ["C14"], "thorough", 600, True, bound="any value of the 7 types; text from the literal table (1- to 4-byte code points)"),
+        H("c14_string_non_numeric", ["C14"], "thorough", 600, True, bound="null, bool, text, list, function"),
+        H("c14_int_of_text", ["C14"], "thorough", 600, True, bound="8 decimal / padded / negative / non-numeric / out-of-range texts"),
+    ],
+}
+
+
 def harnesses_for(prop, tier):
     out = []
     for gname, g in GROUPS.items():
-        hs = [h for h in g["harnesses"] if prop in h.props and (tier == "thorough" or h.tier == "quick")]
+        hs = [h for h in g["harnesses"] if (prop in h.props and (tier == "thorough" or h.tier == "quick"))
+              or (tier == "thorough" and prop in h.tprops)]
         if hs:
             out.append((gname, g, hs))
     return out
